@@ -900,6 +900,7 @@ pub fn runtime_error_variants() -> Vec<(&'static str, rusty_basic::RuntimeError)
             | E::InputPastEndOfFile
             | E::LinterError(_)
             | E::OutOfData
+            | E::OutOfMemory
             | E::Overflow
             | E::ReturnWithoutGoSub
             | E::SubscriptOutOfRange
@@ -925,6 +926,7 @@ pub fn runtime_error_variants() -> Vec<(&'static str, rusty_basic::RuntimeError)
         ("InputPastEndOfFile", E::InputPastEndOfFile),
         ("LinterError", E::LinterError(rusty_linter::core::LintError::ArgumentCountMismatch)),
         ("OutOfData", E::OutOfData),
+        ("OutOfMemory", E::OutOfMemory),
         ("Overflow", E::Overflow),
         ("ReturnWithoutGoSub", E::ReturnWithoutGoSub),
         ("SubscriptOutOfRange", E::SubscriptOutOfRange),
